@@ -134,6 +134,14 @@ theorem parseBool_yaml11 :
     (∀ w ∈ ["", "1", "0", "t", "f", "maybe", "truee", " true", "~", "null"], parseBool w = none) := by
   decide
 
+/-- FULL STRENGTH IS FALSE (`Neg/C08.lean: literal_eq_variable_int_false`, witness `0440`): a plain YAML literal
+    `0[0-7]+` is octal for yaml.v3 but decimal for the casters.  What holds: they agree when every digit before the
+    last is `0` (e.g. `00`, `07`, `0007`). -/
+theorem literal_eq_variable_int_partial (k : Nat) (d : Char) (hd : isOctDigit d = true) :
+    yamlLegacyOctal (String.ofList ('0' :: (List.replicate k '0' ++ [d]))) =
+      parseInt (String.ofList ('0' :: (List.replicate k '0' ++ [d]))) :=
+  yamlLegacyOctal_eq_parseInt_of_zeros k d hd
+
 /-! ## 4. errors name the attribute path -/
 
 /-- an error of the walk is the error of one string leaf, and carries that leaf's path -/
@@ -230,6 +238,9 @@ example : ValidName ['V'] ∧ cfg0.env ['V'] = some "yes".toList ∧ '$' ∉ "ye
 /-- `cast_error_names_path`, `cast_failure_is_error`: an error run whose error carries the concrete path -/
 example : interp cfg0 ["services", "a", "scale"] (.str "${V}") = .err (.cast (pathString ["services", "a", "scale"])) :=
   cast_failure_is_error cfg0 _ _ "yes".toList "toInt" (by decide) (by decide) (by rfl)
+
+/-- `literal_eq_variable_int_partial`: `007` -/
+example : isOctDigit '7' = true ∧ yamlLegacyOctal "007" = some 7 ∧ parseInt "007" = some 7 := by decide
 
 /-- `cast_lookup_perm`: the reversed table is a permutation -/
 example : (CV.Gen.castTable.reverse).Perm CV.Gen.castTable := List.reverse_perm _
